@@ -121,14 +121,68 @@ def run_mutant(m: dict) -> dict:
         shutil.rmtree(tmp, ignore_errors=True)
 
 
-def run_selftest(props=None, jobs: int = 16, verbose: bool = True) -> int:
+def run_patch(m: dict) -> dict:
+    """m: {prop, name, kind, patch} - a unified diff (paths src/nauyaca/...)
+    applied with patch(1) to a scratch copy."""
+    root = src_root()
+    tmp = Path(tempfile.mkdtemp(prefix="nauyaca_sa_pat_"))
+    try:
+        dst = tmp / "src" / root.name
+        shutil.copytree(root, dst, ignore=shutil.ignore_patterns("__pycache__"))
+        p = subprocess.run(["patch", "-p1", "-s", "-d", str(tmp), "-i", m["patch"]], capture_output=True, text=True)
+        if p.returncode != 0:
+            # the corpus patch no longer applies to the current tree: not a checker failure
+            return {"name": m["name"], "ok": True, "why": "skipped: patch does not apply to the current tree", "kind": m["kind"], "skipped": True}
+        env = dict(os.environ)
+        env["NAUYACA_SRC"] = str(dst)
+        env["NAUYACA_SA_OUT"] = str(tmp / "evidence")
+        env["PYTHONPATH"] = str(VERIF)
+        q = subprocess.run(
+            [sys.executable, "-m", "nauyaca_sa", "check", m["prop"], "--tier", "quick"],
+            cwd=str(VERIF), env=env, capture_output=True, text=True, timeout=600,
+        )
+        out = q.stdout + q.stderr
+        keys = [l.split("finding ", 1)[1].strip() for l in out.splitlines() if l.strip().startswith("finding ")]
+        if m["kind"] == "breaking":
+            ok = q.returncode == 1 and bool(keys)
+            why = "" if ok else f"seeded change not reported: rc={q.returncode}\n{out[-400:]}"
+        else:
+            ok = q.returncode == 0 and "VIOLATION" not in out
+            why = "" if ok else f"behaviour-preserving refactoring raised an alarm: rc={q.returncode} findings={keys}\n{out[-400:]}"
+        return {"name": m["name"], "ok": ok, "why": why, "keys": keys, "kind": m["kind"]}
+    finally:
+        shutil.rmtree(tmp, ignore_errors=True)
+
+
+def corpus(props) -> list[dict]:
+    """Patches contributed by independent sub-agents: /verif/benign/*.diff must be
+    silent under every property; /verif/seeded/<name>/patch.diff must be reported by
+    the properties recorded in its meta.json."""
+    import json
+
+    out = []
+    plist = props or [f"C{i:02d}" for i in range(1, 21)]
+    for d in sorted((VERIF / "benign").glob("*.diff")):
+        for p in plist:
+            out.append({"prop": p, "name": f"benign-corpus:{d.stem}", "kind": "benign", "patch": str(d)})
+    for meta in sorted((VERIF / "seeded").glob("*/meta.json")):
+        m = json.loads(meta.read_text())
+        for p, v in m.get("checks_fired", {}).items():
+            if v.get("rc") == 1 and p in plist:
+                out.append({"prop": p, "name": f"seeded:{m['name']}", "kind": "breaking", "patch": str(meta.parent / "patch.diff")})
+    return out
+
+
+def run_selftest(props=None, jobs: int = 16, verbose: bool = True, with_corpus: bool = True) -> int:
     from .mutants import MUTANTS
 
     todo = [m for m in MUTANTS if props is None or m["prop"] in props]
+    if with_corpus:
+        todo = todo + corpus(props)
     if not todo:
         return 0
     with ThreadPoolExecutor(max_workers=jobs) as ex:
-        results = list(ex.map(run_mutant, todo))
+        results = list(ex.map(lambda m: run_patch(m) if "patch" in m else run_mutant(m), todo))
     bad = 0
     LAST_SUMMARY.clear()
     for m, r in zip(todo, results):
